@@ -106,3 +106,21 @@ def sing_pairs_correspondence(ctx, res, grids_spaces):
         if not ok:
             res.disagree("singular index/offset vectors differ from the model", case=label, order=order,
                          impl=real[:4], model=ans[:200])
+
+
+def trace_validation(ctx, pid):
+    """Tie B validation: compiled kernels / assemblers against their traces at random numeric inputs."""
+    res = Result()
+    kernels_only = pid in ("C03", "C05")
+    fam = {"C01": ("regular", "singular", "hyp"), "C02": ("potential",), "C04": ("regular", "singular"),
+           "C06": ("hyp", "regular"), "C07": ("regular", "potential"), "C08": ("potential",), "C13": ()}.get(pid, ())
+    if pid in ("C03", "C05", "C08", "C02", "C01"):
+        from props import c20
+        if "nb" not in c20._STATE:
+            info, nb = gen_kernels()
+            c20._STATE["nb"] = nb
+        res.merge(c20.correspondence(ctx))
+    if fam and not kernels_only:
+        from props import asm_validate
+        res.merge(asm_validate.validate(ctx, fam))
+    return res
